@@ -23,6 +23,9 @@ func init() {
 		Technique: "dominance facts with errors.As refinement, loop-carried value (phi) edge classification, assumption pruning for the refusal cases",
 		Trusted:   "go/types+go/ssa; C01 for the meaning of Verify; purity of header observers",
 		Run:       runC15,
+		Imports: []Import{
+			{From: "C03.b", As: "C15.f", Why: "a soft-failing head is accepted only through the bifurcation: every other way into the subjective-head setter must carry a successful verification, or the bifurcation is bypassed"},
+		},
 	})
 }
 
